@@ -229,6 +229,93 @@ def impl_violates(case: dict) -> bool:
     return r.get('ok') != oracle(case['chunks'], case['pps'])
 
 
+# ---- _handle_post_processors: where the trimmer and the limiter end up ---------------------------------
+def gen_handle_cases(max_len: int):
+    import itertools
+    kinds = [['trim'], ['limit', 5], 'other']
+    givens: typing.List[typing.Optional[list]] = [None]
+    for n in range(max_len + 1):
+        for t in itertools.product(kinds, repeat=n):
+            givens.append(list(t))
+    return [{'handle': {'given': g, 'cfg_limit': lim, 'cfg_trim': tr}} for g in givens for lim in (None, 2) for tr in (False, True)]
+
+
+def kinds_tok(l) -> str:
+    if l is None:
+        return 'N'
+    return ':'.join('T' if k == ['trim'] else 'O' if k == 'other' else 'L%d' % k[1] for k in l) or '-'
+
+
+def run_model_handle(exe: str, cases) -> typing.List[str]:
+    lines = ['H %s %d %s' % ('-' if c['handle']['cfg_limit'] is None else c['handle']['cfg_limit'], int(c['handle']['cfg_trim']),
+                             kinds_tok(c['handle']['given'])) for c in cases]
+    p = core.run([exe], input='\n'.join(lines) + '\n', timeout=600)
+    return [l[2:] if l.startswith('H ') else '<model error: %s>' % l[:60] for l in p.stdout.splitlines()]
+
+
+def handle_order_ok(c, kinds) -> bool:
+    """the property's reading of the option pair: when trimming is configured and the caller supplied no trimmer of their own,
+    the trimmer runs before every limiter (so that whitespace-only lines count as empty)"""
+    h = c['handle']
+    if not h['cfg_trim'] or (h['given'] is not None and ['trim'] in h['given']):
+        return True
+    if kinds is None or ['trim'] not in kinds:
+        return False
+    t = kinds.index(['trim'])
+    return all(not (isinstance(k, list) and k[0] == 'limit') for k in kinds[:t])
+
+
+def blank_runs_ok(text: str, n: int) -> bool:
+    run = 0
+    for c, _t in split_lines(text):
+        if c.strip() == '' and all(ch.isspace() for ch in c):
+            run += 1
+            if run > n:
+                return False
+        else:
+            run = 0
+    return True
+
+
+def nonblank_rstripped(text: str) -> typing.List[typing.Tuple[str, str]]:
+    out = []
+    for c, t in split_lines(text):
+        while c and c[-1].isspace():
+            c = c[:-1]
+        if c:
+            out.append((c, t))
+    return out
+
+
+def gen_default_cases(rng, count: int):
+    """text written through the list the real _handle_post_processors builds for a language with both options on"""
+    cases = [{'handle': {'given': None, 'cfg_limit': 1, 'cfg_trim': True}, 'chunks': ['a\n    \n    \n    \nb\n']},
+             {'handle': {'given': ['other', ['limit', 1]], 'cfg_limit': 2, 'cfg_trim': True}, 'chunks': ['a\n \n\t\n', ' \nb']}]
+    blanks = ['\n', ' \n', '\t \n', '\r\n', '  \r\n', '\u3000\n']
+    while len(cases) < count:
+        text = ''
+        for _ in range(rng.randrange(1, 7)):
+            text += rng.choice(['a', 'b ;', ' x  ', '']) + ''.join(rng.choice(blanks) for _ in range(rng.randrange(0, 6)))
+        text += rng.choice(['', 'z', ' '])
+        given = rng.choice([None, [], ['other'], ['other', 'other'], [['limit', rng.randrange(0, 4)]], ['other', ['limit', rng.randrange(0, 4)]]])
+        cases.append({'handle': {'given': given, 'cfg_limit': rng.randrange(0, 4), 'cfg_trim': True}, 'chunks': gen_cuts(rng, text)})
+    return cases
+
+
+def default_case_bad(c, r) -> typing.Optional[str]:
+    if 'ok' not in r:
+        return 'harness error: %r' % (r,)
+    lim = [k[1] for k in (r.get('kinds') or []) if isinstance(k, list) and k[0] == 'limit']
+    if not lim:
+        return 'no limiter in the list although limit_empty_lines is configured'
+    text = ''.join(c['chunks'])
+    if not blank_runs_ok(r['ok'], lim[-1]):
+        return 'the written file has more than %d consecutive blank lines' % lim[-1]
+    if nonblank_rstripped(r['ok']) != nonblank_rstripped(text):
+        return 'a non-blank line was removed or altered beyond its trailing whitespace'
+    return None
+
+
 def main(chk: core.Check, replay: typing.Optional[str] = None) -> int:
     n_cases = 1500 if chk.tier == 'quick' else 40000
     if replay:
@@ -280,6 +367,16 @@ def main(chk: core.Check, replay: typing.Optional[str] = None) -> int:
     file_bad = [i for i, c in enumerate(file_cases)
                 if file_impl[i].get('ok') != [oracle(f, c['pps']) for f in c['files']]]
 
+    # _handle_post_processors: exhaustive small lists x configuration (implementation vs property reading; vs model below)
+    handle_cases = gen_handle_cases(3 if chk.tier == 'quick' else 5) if not replay else []
+    handle_impl = run_impl(handle_cases) if handle_cases else []
+    handle_bad = [i for i, c in enumerate(handle_cases) if 'kinds' not in handle_impl[i] or not handle_order_ok(c, handle_impl[i]['kinds'])]
+    default_cases = gen_default_cases(chk.rng, 300 if chk.tier == 'quick' else 6000) if not replay else []
+    if replay and 'handle' in doc.get('case', {}):
+        default_cases, cases = [doc['case']], []
+    default_impl = run_impl(default_cases) if default_cases else []
+    default_bad = [(i, default_case_bad(c, default_impl[i])) for i, c in enumerate(default_cases) if 'chunks' in c and default_case_bad(c, default_impl[i])]
+
     def copy_oracle(c):
         t = c['copy_text'].replace('\r\n', '\n').replace('\r', '\n')
         return oracle([t], c['pps'])
@@ -288,6 +385,11 @@ def main(chk: core.Check, replay: typing.Optional[str] = None) -> int:
     model = run_model(exe, cases) if ok_model else None
     if not ok_model:
         broken.append('model does not build/extract: ' + log[-300:])
+    handle_model_bad = []
+    if ok_model and handle_cases:
+        hm = run_model_handle(exe, handle_cases)
+        handle_model_bad = [i for i, c in enumerate(handle_cases)
+                            if i >= len(hm) or hm[i] != (kinds_tok(handle_impl[i]['kinds']) if 'kinds' in handle_impl[i] else '<impl error>')]
 
     # probe the known finding on the implementation
     kf_live = False
@@ -345,7 +447,20 @@ def main(chk: core.Check, replay: typing.Optional[str] = None) -> int:
     chk.coverage['evaluations'] += len(long_cases) + len(copy_cases)
     chk.coverage['distribution']['multi_file_cases'] = len(file_cases)
     chk.coverage['evaluations'] += len(file_cases)
-    if file_bad and not bad_oracle and not long_bad:
+    chk.coverage['distribution']['handle_post_processors_cases'] = len(handle_cases)
+    chk.coverage['distribution']['default_pipeline_file_cases'] = len(default_cases)
+    chk.coverage['evaluations'] += len(handle_cases) + len(default_cases)
+    if default_bad and not bad_oracle:
+        i, why = default_bad[0]
+        chk.violation({'case': default_cases[i], 'implementation': default_impl[i], 'what': 'text written through the processors '
+                       '_handle_post_processors builds for limit_empty_lines + trim_trailing_whitespace: ' + why,
+                       'broken': broken, 'n_failing': len(default_bad)}, found_input=True)
+    elif handle_bad and not bad_oracle:
+        c = handle_cases[handle_bad[0]]
+        chk.violation({'case': c, 'implementation': handle_impl[handle_bad[0]], 'what': '_handle_post_processors does not place the trimmer '
+                       'before every limiter: whitespace-only lines then reach the limiter as non-empty and more than N consecutive '
+                       'empty lines can be written', 'broken': broken, 'n_failing': len(handle_bad)}, found_input=True)
+    elif file_bad and not bad_oracle and not long_bad:
         c = file_cases[file_bad[0]]
         chk.violation({'case': c, 'expected_by_property': [oracle(f, c['pps']) for f in c['files']], 'implementation': file_impl[file_bad[0]],
                        'what': 'a file written by a generator after other files differs from line-by-line application with fresh processors '
@@ -370,6 +485,11 @@ def main(chk: core.Check, replay: typing.Optional[str] = None) -> int:
         i, m, got = bad_model[0]
         chk.violation({'case': cases[i], 'model': m, 'implementation': got, 'correspondence': 'Gen/LinePP.v write_builtin vs CodeGenerator._generate_with_line_buffer',
                        'what': 'model and implementation disagree but no input violating the property was found', 'n_disagreements': len(bad_model)},
+                      found_input=False)
+    elif handle_model_bad:
+        i = handle_model_bad[0]
+        chk.violation({'case': handle_cases[i], 'implementation': handle_impl[i], 'correspondence': 'Gen/LinePPOrder.v handle_pps vs CodeGenerator._handle_post_processors',
+                       'what': 'model and implementation disagree but no input violating the property was found', 'n_disagreements': len(handle_model_bad)},
                       found_input=False)
     elif broken:
         chk.violation({'broken': broken, 'coq_error': res.error_text[-2000:], 'translators': res.translator_msgs,
